@@ -1237,7 +1237,7 @@ aiff_rewrite_header (SF_PRIVATE *psf)
 
 static int
 aiff_write_header (SF_PRIVATE *psf, int calc_length)
-{	sf_count_t		current ;
+{	sf_count_t		current, ssnd_pad = 0 ;
 	AIFF_PRIVATE	*paiff ;
 	uint8_t	comm_sample_rate [10], comm_zero_bytes [2] = { 0, 0 } ;
 	uint32_t	comm_type, comm_size, comm_encoding, comm_frames = 0, uk ;
@@ -1505,7 +1505,10 @@ aiff_write_header (SF_PRIVATE *psf, int calc_length)
 
 	/* Write SSND chunk. */
 	paiff->ssnd_offset = psf->header.indx ;
-	psf_binheader_writef (psf, "Etm844", BHWm (SSND_MARKER), BHW8 (psf->datalength + SIZEOF_SSND_CHUNK), BHW4 (0), BHW4 (0)) ;
+	/* Once the audio data is in place, a header that got shorter is made up for by the SSND offset field. */
+	if (has_data && psf->dataoffset > psf->header.indx + 16)
+		ssnd_pad = psf->dataoffset - (psf->header.indx + 16) ;
+	psf_binheader_writef (psf, "Etm844z", BHWm (SSND_MARKER), BHW8 (psf->datalength + SIZEOF_SSND_CHUNK + ssnd_pad), BHW4 (ssnd_pad), BHW4 (0), BHWz (ssnd_pad)) ;
 
 	/* Header construction complete so write it out. */
 	/* The header must end where the audio data starts : never write a header of another length over existing data. */
